@@ -124,7 +124,19 @@ def preop? : Sexp → Option (PreOp Int)
   | .list [.atom "xread"] => some .xread
   | _ => none
 
+/-- per-cycle doer script: `x` = x extra clock readings; `(x e)` = the same with scheduler op `e` after the first reading -/
+def dscript? : Sexp → Option DScript
+  | .list [x, e] => do
+    let x ← nat? x; let e ← nat? e
+    some (match x with
+      | 0 => [some e]
+      | x + 1 => none :: some e :: List.replicate x none)
+  | s => do some (List.replicate (← nat? s) none)
+
+def dscripts? (xs : List Sexp) : Option (List DScript) := xs.mapM dscript?
+
 def outEv : Ev Int → Sexp
+  | .o e => .list [sym "o", ofNat e]
   | .t r => .list [sym "t", ofInt r]
   | .x r => .list [sym "x", ofInt r]
   | .s d => .list [sym "s", ofInt d]
@@ -140,7 +152,7 @@ def paceReq (base incs ovs tock0 pre n xs : Sexp) : Option Sexp := do
   let tock0 ← optInt? tock0
   let pre ← (← list? pre).mapM preop?
   let n ← nat? n
-  let xs ← natsL? (← list? xs)
+  let xs ← dscripts? (← list? xs)
   let o := paceRun Gen.tymistTock scriptClock (incs.length + 1) { c := base, incs := incs, ovs := ovs } tock0 pre n xs
   some (.list [.list (o.pre.map outEv), .list (o.run.map outEv), sym (endName o.fin), ofOpt ofInt o.tock])
 
@@ -154,7 +166,7 @@ def pace2Req (first mid second : List Sexp) : Option Sexp := do
   let tock0 ← optInt? tock0
   let pre ← (← list? pre).mapM preop?
   let n ← nat? n
-  let xs ← natsL? (← list? xs)
+  let xs ← dscripts? (← list? xs)
   let [_mode, tock2] := mid | none
   let tock2 ← optInt? tock2
   let [base2, incs2, ovs2, n2, xs2, _entry] := second | none
@@ -162,7 +174,7 @@ def pace2Req (first mid second : List Sexp) : Option Sexp := do
   let incs2 ← ints? (← list? incs2)
   let ovs2 ← ints? (← list? ovs2)
   let n2 ← nat? n2
-  let xs2 ← natsL? (← list? xs2)
+  let xs2 ← dscripts? (← list? xs2)
   let o := paceRun Gen.tymistTock scriptClock (incs.length + 1) { c := base, incs := incs, ovs := ovs } tock0 pre n xs
   let part1 := [.list (o.pre.map outEv), .list (o.run.map outEv), sym (endName o.fin), ofOpt ofInt o.tock]
   match o.tock with
